@@ -175,17 +175,36 @@ type otLog struct {
 	recvFlags [][]bool
 	initS     int
 	initR     int
+	conn      *p2p.Conn // the connection the OT runs on (set by Init*)
+	posInit   int       // stream position (bytes written by this party) when OT initialisation began
+	posEnd    int       // stream position when the last Send/Receive returned
+}
+
+// wpos is the number of bytes this party has written to its connection so far (flushed or buffered).
+func (o *otLog) wpos() int {
+	if o.conn == nil {
+		return -1
+	}
+	return int(o.conn.Stats.Sent.Load()) + o.conn.WritePos
 }
 
 func (o *otLog) InitSender(io ot.IO) error {
 	o.mu.Lock()
 	o.initS++
+	if c, ok := io.(*p2p.Conn); ok {
+		o.conn = c
+		o.posInit = o.wpos()
+	}
 	o.mu.Unlock()
 	return o.inner.InitSender(io)
 }
 func (o *otLog) InitReceiver(io ot.IO) error {
 	o.mu.Lock()
 	o.initR++
+	if c, ok := io.(*p2p.Conn); ok {
+		o.conn = c
+		o.posInit = o.wpos()
+	}
 	o.mu.Unlock()
 	return o.inner.InitReceiver(io)
 }
@@ -193,13 +212,17 @@ func (o *otLog) Send(wires []ot.Wire) error {
 	o.mu.Lock()
 	o.sent = append(o.sent, append([]ot.Wire(nil), wires...))
 	o.mu.Unlock()
-	return o.inner.Send(wires)
+	err := o.inner.Send(wires)
+	o.posEnd = o.wpos()
+	return err
 }
 func (o *otLog) Receive(flags []bool, result []ot.Label) error {
 	o.mu.Lock()
 	o.recvFlags = append(o.recvFlags, append([]bool(nil), flags...))
 	o.mu.Unlock()
-	return o.inner.Receive(flags, result)
+	err := o.inner.Receive(flags, result)
+	o.posEnd = o.wpos()
+	return err
 }
 
 func mkOT(kind string) ot.OT {
